@@ -563,6 +563,34 @@ pub fn serde_check(a: &Args) -> Report {
       }
     }
   }
+  // many honest evaluation outputs through their JSON form (a value-dependent refusal of valid
+  // encodings — say, one particular top byte — needs volume: 2000 points leave 2^-22 for 1 in 128)
+  {
+    let srv = Server::new(vec![9, 200]).unwrap();
+    let pk = srv.get_public_key();
+    for i in 0..2000u32 {
+      let (p, _) = Client::blind(&i.to_le_bytes());
+      let md = if i % 2 == 0 { 9 } else { 200 };
+      let verifiable = i % 16 == 0;
+      if let Ok(ev) = srv.eval(&p, md, verifiable) {
+        rep.evaluations += 1;
+        let back: Option<Evaluation> = serde_json::to_string(&ev).ok().and_then(|s| serde_json::from_str(&s).ok());
+        let pback: Option<Point> = serde_json::to_string(&p).ok().and_then(|s| serde_json::from_str(&s).ok());
+        match (back, pback) {
+          (Some(e2), Some(p2)) => {
+            if e2.output.as_bytes() != ev.output.as_bytes() || p2.as_bytes() != p.as_bytes() {
+              rep.violation("C15", "serde_json", "restored-differs", "a point or evaluation restored from JSON differs from the original".into(), json!({"i": i}));
+            } else if verifiable && !matches!(guard(|| Client::verify(&pk, &p2, &e2, md)), Guard::Done(true)) {
+              rep.violation("C15", "Client::verify", "restored-not-interchangeable", "a restored evaluation does not verify".into(), json!({"i": i}));
+            }
+          }
+          _ => rep.violation("C15", "serde_json", "restore-failed",
+            format!("an honest evaluation / point does not survive its JSON form (output top byte {:#04x})", ev.output.as_bytes()[31]), json!({"i": i})),
+        }
+      }
+    }
+    rep.nontrivial("json-volume".into());
+  }
   // JSON forms: malformed input is an error, never a partially initialised value
   let srv = Server::new(vec![9]).unwrap();
   let (p, _) = Client::blind(b"json");
@@ -702,6 +730,60 @@ pub fn proof_complete(a: &Args) -> Report {
       }
     }
     rep.sample(json!({"tag_set_size": nt, "requests_per_tag": nreq}));
+  }
+  // ... and after the server's key has travelled: a clone, an instance restored from exported key
+  // state — created with the SAME tag list, with an overlapping one, with none — an instance
+  // re-synchronised twice, and all of them after some other tags were punctured.  The public key is
+  // the exporter's; every honest verifiable evaluation of a live tag verifies against it.
+  {
+    use ppoprf::ppoprf::ServerKeyState;
+    let tags: Vec<u8> = vec![0, 1, 7, 128, 255];
+    if let Ok(mut origin) = Server::new(tags.clone()) {
+      let pk = origin.get_public_key();
+      let export = |s: &Server| -> Option<ServerKeyState> {
+        bincode::serialize(&s.get_private_key()).ok().and_then(|b| bincode::deserialize::<ServerKeyState>(&b).ok())
+      };
+      for round in 0..3 {
+        let mut copies: Vec<(String, Server)> = vec![("clone".into(), origin.clone())];
+        for (name, own) in [("restored-into-same-tags", tags.clone()), ("restored-into-overlapping-tags", vec![1u8, 7, 9]),
+                            ("restored-into-no-tags", vec![]), ("restored-into-other-tags", vec![200u8, 201])] {
+          if let (Ok(mut imp), Some(st)) = (Server::new(own), export(&origin)) {
+            if matches!(guard(|| imp.set_private_key(st)), Guard::Done(())) {
+              copies.push((name.into(), imp));
+            }
+          }
+        }
+        // re-synchronised a second time from the first restored copy
+        if copies.len() >= 2 {
+          if let (Ok(mut imp), Some(st)) = (Server::new(tags.clone()), export(&copies[1].1)) {
+            let _ = guard(|| imp.set_private_key(st));
+            copies.push(("restored-from-a-restored-copy".into(), imp));
+          }
+        }
+        let live: Vec<u8> = tags.iter().cloned().filter(|t| ![1u8, 128][..round.min(2)].contains(t)).collect();
+        for (name, srv) in &copies {
+          for md in &live {
+            let (bp, _r) = Client::blind(format!("travel {round} {name} {md}").as_bytes());
+            rep.evaluations += 1;
+            match guard(|| srv.eval(&bp, *md, true)) {
+              Guard::Done(Ok(ev)) => {
+                if !matches!(guard(|| Client::verify(&pk, &bp, &ev, *md)), Guard::Done(true)) {
+                  rep.violation("C13", "Client::verify", &format!("honest-rejected:{name}"),
+                    format!("an honest verifiable evaluation by a server copy ({name}) does not verify against the public key"),
+                    json!({"copy": name, "tag": md, "punctured_so_far": round.min(2)}));
+                } else {
+                  rep.nontrivial(format!("travel:{round}:{name}:{md}"));
+                }
+              }
+              _ => rep.violation("C13", "Server::eval", &format!("verifiable-eval-failed:{name}"),
+                format!("verifiable evaluation of a live tag failed on a server copy ({name})"), json!({"copy": name, "tag": md})),
+            }
+          }
+        }
+        // puncture another tag on the origin before the next round
+        let _ = guard(|| origin.puncture([1u8, 128, 7][round]));
+      }
+    }
   }
   rep.traces = 1;
   rep
